@@ -447,7 +447,9 @@ EXTRA = {
            'output, where= masks treated as possibly false (R4L); copy() owns '
            'its buffer in every layout (R5L); the scalars reaching _lincomb '
            'keep their type (R4t); R4L also runs through the '
-           'DiscretizedSpace wrappers.',
+           'DiscretizedSpace wrappers; R4b evaluates every generated '
+           'broadcasting dunder on a fresh operand and on each part of the '
+           'element itself; R5L copy() of discretized elements.',
     'C03': ' Evaluated tier R11: about 410 operator / functional instances '
            'on model spaces are called out of place (input untouched) and in '
            'place on an output holding arbitrary symbols (same object, the '
@@ -455,16 +457,22 @@ EXTRA = {
            'the operators returned as adjoints (closure classes such as '
            'the resizing adjoint) are called the same way; affine finite-'
            'difference operators and resizing operators are among the '
-           'instances.',
+           'instances, affine shifts op + v and sums of operators returning '
+           'views of their input.',
     'C05': ' The evaluated tier R8 covers default, product-space, tensor '
            '(matrix, sampling, flattening, pointwise inner) and finite-'
            'difference operators on weighted / complex / discretized model '
            'spaces, plus adjoint.adjoint; weighted-space defects are known '
            'findings.  Short axes (2, 3 points) for every finite-difference '
            'method / padding, power spaces of length one and two, resizing '
-           'operators for every pad mode.',
+           'operators for every pad mode; R9w wavelet adjoints.',
     'C04': ' Functional arithmetic (scalings, sums, translations) is '
-           'normalised like operator arithmetic.',
+           'normalised like operator arithmetic.  Leaf operators with domain '
+           '= range: no aliased leaf call on a fresh out (R3), out aliased '
+           '(R3a), two element objects over one buffer (R3s).',
+    'C02': ' BLAS dot / dotc modelled, large-array regime with an admitting '
+           'guard; R4c cell sides / cell volume through the real properties '
+           'with tolerance tests explored both ways.',
     'C06': ' Evaluated tier R8: derivative(x)(d) of nonlinear built-ins, '
            'arithmetic on them and block operators equals the symbolic '
            'differential of the evaluated A(x) on weighted model spaces; a '
@@ -489,7 +497,9 @@ EXTRA = {
            'norms), plus the Fenchel-Young inequality at y = g/2, 2g; the '
            'Moreau clause also with both proximals applied in place; '
            'translated functionals whose conjugate is a derived functional; '
-           'Kullback-Leibler with a prior that has zeros.',
+           'Kullback-Leibler with a prior that has zeros; R6 Moreau '
+           'decomposition of the documented factory pairs called directly '
+           'with lam and g.',
     'C10': ' Evaluated tier R3: proximals and default operators called '
            'with out aliased to the input on model spaces, after a first '
            'aliased call of the same operator instance at another point.',
@@ -499,7 +509,8 @@ EXTRA = {
            'of a region decided at a designated numeric point).  R3e: every '
            'declared finite Lipschitz bound is tested against difference '
            'quotients of the evaluated gradient at numeric point pairs on '
-           'three scales (refutation only).',
+           'three scales (refutation only); tolerance tests against machine '
+           'constants are explored both ways.',
     'C11': ' Resumption also with in-place projections; inputs other than '
            'the iterate are unchanged after a run (R2i); R5: the premise of '
            'R1 that prox(v, out=v) equals prox(v) is discharged on the '
@@ -513,7 +524,10 @@ EXTRA = {
            'Landweber on data scaled by eps -> 0+ and eps -> inf.  R9: after '
            'n iterations the caller\'s x holds the iterate of the n-th '
            'iteration.  R4b: the power method\'s stagnation test compares '
-           'consecutive values of the returned estimate.',
+           'consecutive values of the returned estimate.  R10: no aliased '
+           'evaluation of a user operator (solvers run with operators X -> '
+           'X).  R2c: default Landweber relaxation from a generically '
+           'started norm estimate.',
     'C13': ' Evaluated tier: the four operator classes are instantiated on '
            'a 4 x 3 model space with symbolic cell sides; values = reference '
            'stencil / cell side (R6), derivative = exact difference of the '
@@ -522,30 +536,43 @@ EXTRA = {
            'operands explored with both outcomes.',
     'C14': ' uniform_partition_fromgrid is evaluated for all 64 forms of the '
            'limit arguments on a 2-d grid; the index normaliser is interpreted '
-           'on every slice form (R3b).',
+           'on every slice form (R3b); nonuniform_partition on products of '
+           'axes of different lengths; uniform_partition_fromintv forwards '
+           'interval / shape / per-side flags.',
     'C15': ' The dtype rule also runs through the public factories and '
            'tracks fractional information through casts; complex constant '
            'callables; element() owns its data (R4c); R1L: the interpolators '
-           'on value arrays in Fortran memory order.',
+           'on value arrays in Fortran memory order; R6a deformation '
+           'operators under out aliased to the input (kernel alias '
+           'hazards).',
     'C16': ' Mixed grow / shrink shapes in the n-d rule; _offset_from_spaces '
            'evaluated on 81 two-dimensional pairs with signed offsets; axes '
            'that keep their size with non-zero offset.  R2s: zero, constant '
            'and one-hot inputs give the value of the extracted affine map '
-           'and leave the input array unchanged.',
+           'and leave the input array unchanged.  R4c: explicit ranges with '
+           'other cell sides are refused in every axis.',
     'C17': ' Two-output ufuncs with different output dtypes and nested '
            'power-space broadcasting of the legacy wrappers are included; '
-           'the dtype keyword of the legacy reductions.',
+           'the dtype keyword of the legacy reductions; reductions of narrow '
+           'integers; memory sharing through DiscretizedSpace.element; R6 '
+           'power-space elements through the legacy array protocol.',
     'C18': ' The per-axis pre-processing factors are evaluated for every '
            'shift pattern (R2b); the planner rule follows destroyed arrays '
            '(R5); wavelet adjoint scaling for every axes subset (R9); '
            'complex conjugation over the kernel symbols and unshifted axes '
            'in R3; R3p: a plan made by init_fftw_plan uses the direction / '
-           'halfcomplex / axes of the call.',
+           'halfcomplex / axes of the call; R4d processing steps pass the '
+           'operator\'s own sign / shifts / axes; R1c reciprocal_space keeps '
+           'the axis order.',
     'C19': ' The default surface normal is evaluated on generic tangents '
-           '(R8); off-centre volumes among the coverage witnesses.',
+           '(R8); off-centre volumes among the coverage witnesses; R9 '
+           'rotation_matrix_from_to at rational vector pairs; R8b flat '
+           'detector normals; R4m no in-place accumulation into aliased '
+           'constructor arguments.',
     'C20': ' TensorSpace._astype is evaluated over weighting kinds, '
            'exponents and target dtypes (R7d); slicing of weighted spaces '
-           '(R7e).',
+           '(R7e); R7f product-space element indexing against NumPy '
+           'indexing of the stacked array, component weights kept.',
 }
 
 NOT_YET = 'check not implemented yet in this commit (DESIGN.md section 6 build order)'
